@@ -107,8 +107,10 @@ func (p *Prog) desc(v ssa.Value, depth int) string {
 
 func (p *Prog) descCall(c *ssa.CallCommon, depth int) string {
 	var name string
+	var args []string
 	if c.IsInvoke() {
 		name = typeShort(c.Value.Type()) + "." + c.Method.Name()
+		args = append(args, p.desc(c.Value, depth+1))
 	} else if f := c.StaticCallee(); f != nil {
 		name = ShortKey(f)
 	} else if b, ok := c.Value.(*ssa.Builtin); ok {
@@ -116,7 +118,6 @@ func (p *Prog) descCall(c *ssa.CallCommon, depth int) string {
 	} else {
 		name = "dyn:" + p.desc(c.Value, depth+1)
 	}
-	var args []string
 	for _, a := range c.Args {
 		args = append(args, p.desc(a, depth+1))
 	}
